@@ -7,6 +7,7 @@ REPO = os.environ.get('VERIF_REPO', '/repo')
 COQ = os.path.join(VERIF, 'coq')
 BUILD = os.path.join(VERIF, 'build')
 MODELRUN = os.path.join(BUILD, 'modelrun')
+NUM_PROPS = ('C05', 'C06', 'C16', 'C17', 'C18', 'C19', 'C20')
 GATE_RE = re.compile(r'\b(Admitted|admit|Axiom|Axioms|Parameter|Parameters|Conjecture|Hypothesis|Variable)\b|Unset\s+Guard|bypass_check|type-in-type|impredicative-set|Admit\s+Obligations')
 
 
@@ -74,18 +75,21 @@ def coq_make(prop):
         ok = rc1 == 0
         log = out if rc != 0 else ''
         log += out1 if rc1 != 0 else ''
-        for f in ('model.ml', 'model.mli', 'cdp_model.ml', 'cdp_model.mli'):
+        for f in ('model.ml', 'model.mli', 'cdp_model.ml', 'cdp_model.mli', 'num_model.ml', 'num_model.mli'):
             if os.path.exists(os.path.join(COQ, f)):
                 os.remove(os.path.join(COQ, f))
-        want = 'cdp' if prop == 'C07' else 'main'
-        binp = os.path.join(BUILD, 'cdprun' if want == 'cdp' else 'modelrun')
-        src_t = _newest(['coq/Gen', 'coq/Base', 'ocaml/cdp', 'coq/Extract'], ('.v', '.ml')) if want == 'cdp' else \
-            _newest(['coq/Model', 'coq/Base', 'coq/Extract', 'ocaml'], ('.v', '.ml'))
-        if not os.path.exists(binp) or os.path.getmtime(binp) < src_t:
-            rc2, out2 = sh([os.path.join(VERIF, 'harness', 'build_model.sh'), want], timeout=2000)
-            if rc2 != 0:
-                log += out2
-                ok = False
+        wants = ['cdp'] if prop == 'C07' else (['num'] if prop in NUM_PROPS else ['main'])
+        if prop in ('C05', 'C06'):
+            wants = ['num', 'cdp']
+        for want in wants:
+            binp = os.path.join(BUILD, {'cdp': 'cdprun', 'main': 'modelrun', 'num': 'numrun'}[want])
+            src_t = _newest(['coq/Gen', 'coq/Base', 'ocaml/cdp', 'coq/Extract'], ('.v', '.ml')) if want == 'cdp' else \
+                _newest(['coq/Model', 'coq/Base', 'coq/Extract', 'ocaml'], ('.v', '.ml'))
+            if not os.path.exists(binp) or os.path.getmtime(binp) < src_t:
+                rc2, out2 = sh([os.path.join(VERIF, 'harness', 'build_model.sh'), want], timeout=2000)
+                if rc2 != 0:
+                    log += out2
+                    ok = False
         return dict(ok=ok, log=log, translator_ok=tok, translator_msg=tmsg)
 
 
@@ -190,6 +194,24 @@ def run_model(lines, timeout=600, jobs=None):
     res = [None] * len(lines)
     for i, o in enumerate(outs):
         res[i::k] = o
+    return res
+
+
+def run_num(lines, timeout=600):
+    """Run the float-instance numeric models (build/numrun); returns one list of floats (or an 'EXC ...' string) per line."""
+    if not lines:
+        return []
+    rc, out = sh([os.path.join(BUILD, 'numrun')], timeout=timeout, inp='\n'.join(lines) + '\n')
+    res = []
+    for l in out.split('\n')[:len(lines)]:
+        if l.startswith('EXC'):
+            res.append(l)
+        else:
+            try:
+                res.append([float.fromhex(t) if t not in ('nan', '-nan', 'inf', '-inf') else float(t) for t in l.split()])
+            except ValueError:
+                res.append('EXC unparsable: ' + l[:60])
+    res += ['EXC runner died'] * (len(lines) - len(res))
     return res
 
 
